@@ -18,14 +18,14 @@ from ..util import result, rng_for, viol
 
 ID = "C19"
 RULE = (
-    "exhaustive: every loss history over the ordered alphabet {0,1,2,3} (0 = a model that fits exactly) up to length 7 (thorough; 5 quick), with and "
+    "exhaustive: every loss history over the ordered alphabet {-1,0,1,2} (0 = a model that fits exactly, -1 = a negative loss) up to length 7 (thorough; 5 quick), with and "
     "without the initial None call the training loop makes, x patience 0..3 x min_delta {0,0.5,1.0(,1.5)} x monitored {train,val} "
     "x representation {float, numpy.float32, numpy.float64, 0-d jax array}; EpochStop for epochs 0..5; real ml.train "
     "runs (TrainLoss, ValLoss, EpochStop) on a tiny model with non-improving losses. A case = one configuration with all "
     "its histories; non-trivial: >=1 history in which the reference stops; distinct by configuration. evaluations = stop() calls monitored."
 )
 EXHAUSTIVE = {"quick": True, "thorough": True}
-ASSUMPTIONS = ["automaton vmon/ref/misc.py:PatienceAutomaton written from the statement", "losses over {0,1,2,3} and min_delta in {0,0.5,1,1.5} are exact in every representation"]
+ASSUMPTIONS = ["automaton vmon/ref/misc.py:PatienceAutomaton written from the statement", "losses over {-1,0,1,2} and min_delta in {0,0.5,1,1.5} are exact in every representation"]
 ANCHORS = [
     "ginjax.ml.stopping_conditions:TrainLoss.stop",
     "ginjax.ml.stopping_conditions:ValLoss.stop",
@@ -38,7 +38,7 @@ TIMEOUT = {"quick": 900, "thorough": 3600}
 
 REPS = {"quick": ["float", "jax", "np32"], "thorough": ["float", "np32", "np64", "jax"]}
 MAXLEN = {"quick": 5, "thorough": 7}
-LEVELS = (0, 1, 2, 3)  # 0 is a legitimate loss (a model that fits exactly)
+LEVELS = (-1, 0, 1, 2)  # 0 is a legitimate loss (a model that fits exactly); losses may also be negative
 
 
 def cases(tier, seed):
@@ -178,7 +178,7 @@ def _run_hist(case, ctx, ml):
     cls = getattr(ml, case["cls"])
     monitored = "train_loss" if case["cls"] == "TrainLoss" else "val_loss"
     vals = make_rep(case["rep"])
-    other = vals[2]
+    other = vals[1]
     key = {k: case[k] for k in ("cls", "patience", "min_delta", "rep", "maxlen")}
     viols, calls, n_hist, n_stop = [], 0, 0, 0
     _mon.take()
@@ -242,7 +242,7 @@ def _run_epoch(case, ctx, ml):
         _mon.register(cond, auto, "epoch")
         for e in range(n + 3):
             model = ("model", e)
-            got = cond.stop(model, e, None if e == 0 else vals[1 + e % 3], None, 0.0)
+            got = cond.stop(model, e, None if e == 0 else vals[LEVELS[e % len(LEVELS)]], None, 0.0)
             calls += 1
             if got:
                 break
